@@ -257,9 +257,56 @@ def ob_roundtrip(W):
         W.goal("roundtrip/" + nm, ok)
 
 
+def _proto(how):
+    """the object-copy protocols as the standard library runs them (copy.copy / copy.deepcopy are the real functions, also on
+    symbolic instances; a pickle round trip is the same __reduce_ex__ protocol with every container rebuilt = deepcopy at pickle's
+    protocol number; the byte-level serialisation of leaves is pickle's business)"""
+    import copy, pickle
+    if how == "copy":
+        return copy.copy
+    if how == "deepcopy":
+        return copy.deepcopy
+    if how == "pickle":
+        return lambda o: pickle.loads(pickle.dumps(o))
+    if how == "pickle-protocol":
+        return lambda o: copy._reconstruct(o, {}, *o.__reduce_ex__(pickle.HIGHEST_PROTOCOL))
+    raise ValueError(how)
+
+
+def ob_roundtrip_history(W, how, first):
+    """two different results copied / unpickled in the same process: each copy returns ITS OWN values, whichever attribute was
+    read first on the other copy (nothing is shared through the class or the module)"""
+    bins1 = [R.bin_inputs(W, "a", cross=True, pos=True, psd_cs=False)]
+    bins2 = [R.bin_inputs(W, "b%d" % j, cross=True, pos=True, psd_cs=False) for j in range(2)]
+    fs = W.real("fs")
+    if W.sym:
+        W.assume(fs > 0)
+    elif not fs > 0:
+        return
+    r1, r2 = R.mk(W, bins1, True, fs), R.mk(W, bins2, True, fs)
+    f = _proto(how if not (W.sym and how == "pickle") else "pickle-protocol")
+    if first == "orig":
+        _ = r1.Gxx, r1.coh, r2.Gxx             # the originals had attributes evaluated before being copied
+    c1, c2 = f(r1), f(r2)
+    names = ("Gxx", "Gxy", "coh", "ENBW", "navg", "f")
+    for nm in names:
+        v1 = getattr(c1, nm)
+        v2 = getattr(c2, nm)
+        o1, o2 = getattr(r1, nm), getattr(r2, nm)
+        W.goal("copy of result 1: %s" % nm, len(v1) == 1 and bool(W.eq(R.el(v1, 0), R.el(o1, 0))) if not W.sym else (len(v1) == 1 and W.eq(R.el(v1, 0), R.el(o1, 0))))
+        if W.sym:
+            W.goal("copy of result 2: %s" % nm, len(v2) == 2 and W.And(W.eq(R.el(v2, 0), R.el(o2, 0)), W.eq(R.el(v2, 1), R.el(o2, 1))))
+        else:
+            W.goal("copy of result 2: %s" % nm, len(v2) == 2 and bool(W.eq(R.el(v2, 0), R.el(o2, 0))) and bool(W.eq(R.el(v2, 1), R.el(o2, 1))))
+    W.goal("copies keep their type flags", c1.iscsd is True and c2.iscsd is True)
+
+
 def obligations(tier):
     to = 30 if tier == "quick" else 120
     obs = [{"name": n, "fn": n, "params": {}, "timeout": to} for n in ("ob_cross_views", "ob_cross_phase", "ob_auto_views", "ob_unknown_names", "ob_roundtrip")]
+    for how in ("copy", "deepcopy", "pickle"):
+        for first in ("fresh", "orig"):
+            obs.append({"name": "ob_roundtrip_history/%s/%s" % (how, first), "fn": "ob_roundtrip_history", "params": {"how": how, "first": first}, "timeout": to, "weight": 4})
     for nb in ((2, 3) if tier == "quick" else (2, 3, 4)):
         obs.append({"name": "ob_phase_unwrap/bins%d" % nb, "fn": "ob_phase_unwrap", "params": {"nb": nb}, "timeout": to, "weight": 4 * nb})
     meas = [("Gxy", True), ("coh", True), ("asd", False)] if tier == "quick" else [("Gxy", True), ("coh", True), ("Hxy", True), ("Gxx", True), ("asd", False), ("psd", False), ("cs", True)]
